@@ -212,6 +212,8 @@ def rexpr(e):
 
 
 def rarg(e):
+    if e["k"] == "idx" or (e["k"] == "fld" and "l" in e):      # an assignable passed to a Referenz parameter
+        return "(" + rlv(e) + ")"
     s = rexpr(e)
     if e["k"] == "id" or (e["k"] == "lit" and e["v"]["k"] in ("W", "C", "T")) or (e["k"] == "lit" and e["v"]["k"] == "Z" and not s.startswith("(")):
         return s
@@ -227,8 +229,8 @@ def rlv(lv):
         return "%s von %s" % (lv["f"], inner if lv["l"]["k"] == "id" else "(" + inner + ")")
     if k == "idx":
         inner = rlv(lv["l"])
-        if lv["l"]["k"] == "idx":
-            inner = "(" + inner + ")"
+        if lv["l"]["k"] == "idx":      # nested indexing is written  x an der Stelle i, an der Stelle j
+            return "%s, an der Stelle %s" % (inner, rarg(lv["i"]))
         return "%s an der Stelle %s" % (inner, rarg(lv["i"]))
     raise ValueError(k)
 
